@@ -53,6 +53,19 @@ def case(part, item):
         part.violation(f'exception-unclipped:{type(e).__name__}',
                        f'{name}: {e}', det)
         return
+    if cfg.get('nu_target'):
+        # boundary inputs: kl_clip chosen so that the stated formula gives
+        # exactly nu_target (just below / above 1) on the first step
+        ev0 = [e for e in recsA[0] if e['op'][0] == 'train'][0]
+        lr0 = k['lr']
+        s0 = sum((V.to(F64) * ev0['D'][pn].to(F64)).sum().item() * lr0 ** 2
+                 for pn, V in ev0['P'].items()
+                 if V is not None and _registered(cfg, pn))
+        cfg = copy.deepcopy(cfg)
+        cfg['kfac']['kl_clip'] = cfg['nu_target'] ** 2 * abs(s0)
+        k = cfg['kfac']
+        det = {'cfg': cfg, 'schedule': sname}
+        name = name_of(cfg) + f"/nu_target={cfg['nu_target']}"
     try:
         recsB, badB = run_cfg(cfg, sname)
     except Exception as e:  # noqa
@@ -133,8 +146,8 @@ def configs(thorough, seed):
     methods = [('eigen', True), ('eigen', False), ('inverse', False)]
     kls = [1e-6, 1e-3, 1e3, ['cyc', [1e-6, 1e3, 1e-3]], None]
     lrs = [0.0, 0.1, 1.0, ['cyc', [0.1, 1.0, 0.0]]]
-    models = ['lin1', 'mlp2', 'mlp3', 'mixed', 'nbfirst'] + (['conv'] if thorough
-                                                  else [])
+    models = ['lin1', 'mlp2', 'mlp3', 'mixed', 'nbfirst', 'gated'] + (
+        ['conv'] if thorough else [])
     for model, (m, pre), kl, lr, zero in itertools.product(
             models, methods, kls, lrs, (False, True)):
         if zero and (model != 'mlp3' or lr == 0.0):
@@ -173,6 +186,15 @@ def configs(thorough, seed):
                      'seed': seed, 'kfac': k, 'sgd_lr': 0.0,
                      'loss_mult': mult, 'history': [['train']] * 2},
                     'single'))
+    # clip scales just below and just above 1
+    for model, (m, pre), nt in itertools.product(
+            ['mlp2', 'nbfirst', 'conv'], methods,
+            [0.9, 0.98, 0.992, 0.999, 0.9999, 1.0001, 1.01]):
+        k = dict(damping=0.05, factor_decay=0.5, kl_clip=1.0, lr=0.1,
+                 compute_method=m, compute_eigenvalue_outer_product=pre)
+        out.append(({'model': model, 'dtype': 'f32', 'batch': 2, 'world': 1,
+                     'seed': seed, 'kfac': k, 'sgd_lr': 0.0, 'loss_mult': 5.0,
+                     'nu_target': nt, 'history': [['train']] * 2}, 'single'))
     # a negative inner product (negative definite factor loaded by the user,
     # inverse method): the stated |sum| decides
     for model, (m, pre), kl, c in itertools.product(
@@ -250,7 +272,10 @@ def main(run: core.Run):
         'every configuration in {1-3 layer models incl. one with '
         'unregistered parameters} x {3 methods} x kl_clip {1e-6, 1e-3, 1e3, '
         'step-dependent callable, None} x lr {0, 0.1, 1, callable} x '
-        '{ordinary, all-zero gradients}, and simulated worlds 2/4 under all '
+        '{ordinary, all-zero gradients, one gated-off layer with an exactly '
+        'zero gradient}, boundary inputs whose clip scale is 0.9..1.01, a '
+        'negative inner product, AMP loss scales, float16/bfloat16 with '
+        'large sums, and simulated worlds 2/4 under all '
         'strategies; each is executed twice on identical states (model '
         'updates disabled): with clipping disabled (kl_clip=None, resp. 1e30 '
         'where None is under test) to obtain V and '
